@@ -152,8 +152,14 @@ def rdm_body(ctx, case):
                 for A, B, n in ((ups[a], ups[b], s.nelec[0]), (dns[a], dns[b], s.nelec[1])):
                     if n:
                         worst = max(worst, np.linalg.cond(A[:, :n].T @ B[:, :n]))
-        if worst > 1e6:
-            ctx.count("skipped:noci-orthogonal-determinant-pair")
+        if worst > 1e12:
+            # exactly orthogonal pair: a legitimate NOCI trial; the library's formula divides by zero (recorded finding)
+            got = np.asarray(s.trial.get_rdm1(s.wave_data))
+            if not np.all(np.isfinite(got)):
+                ctx.fail("rdm1:noci:orthogonal-determinant-pair", case, "noci rdm1 contains NaN/inf for an expansion with two mutually orthogonal determinants")
+                return
+        elif worst > 1e6:
+            ctx.count("skipped:noci-nearly-orthogonal-determinant-pair")
             return
     try:
         got = np.asarray(s.trial.get_rdm1(s.wave_data))
